@@ -10,5 +10,6 @@ Lemma file_c_shape :
   file_close_tests_closed = true /\      (* File_Close: `if (f->file is NULL) throw(IOError …` first *)
   file_close_clears_always = true /\     (* File_Close: `f->file = NULL` before the throw on fclose failure *)
   file_ops_guarded = true /\             (* Seek Tell Flush EOF Read Write Format_To Format_From: closed test first *)
-  file_del_open_shape = true.            (* File_Del, File_Open close only an open File; File_Open stores fopen's result *)
+  file_del_open_shape = true /\          (* File_Del, File_Open close only an open File; File_Open stores fopen's result *)
+  file_format_direct = true.             (* File_Format_To / _From hand fmt and va straight to vfprintf / vfscanf on the stream *)
 Proof. repeat split; reflexivity. Qed.
